@@ -156,6 +156,9 @@ pub fn install_panic_hook() {
         } else {
             "<panic>".into()
         };
+        if std::env::var_os("VERIF_DEBUG").is_some() {
+            eprintln!("panic: {msg} @ {loc}");
+        }
         LAST_PANIC.with(|l| *l.borrow_mut() = Some(format!("{msg} @ {loc}")));
     }));
 }
